@@ -83,3 +83,8 @@ Proof. reflexivity. Qed.
 Lemma bind_ret_inv {X Y} (o : outcome X) (f : X -> outcome Y) (y : Y) :
   bind o f = Ret y -> exists x, o = Ret x /\ f x = Ret y.
 Proof. destruct o; simpl; intros H; try discriminate. eauto. Qed.
+
+(* private helper functions of the translated code register themselves here (Hint Unfold ... : bm_helpers,
+   written by the translator); the generic tactics unfold them, so that a proof about a function survives
+   the extraction of part of its body into a helper *)
+Create HintDb bm_helpers.
